@@ -25,7 +25,7 @@ TOL = 1e-12
 
 
 def gen_params(rng, tier):
-    spec = gen.gen_spec(rng, rng.randint(0, 3))
+    spec = gen.gen_nested_binning_spec(rng) if rng.random() < 0.2 else gen.gen_spec(rng, rng.randint(0, 3))
     sa = [[d, w] for d, w in gen.gen_stream(rng, spec, rng.randint(0, 8), gate_rate=0.05)]
     variant = rng.choice(["same", "same", "extra", "cell", "cell", "struct", "struct"])
     spec2, sb, desc = spec, copy.deepcopy(sa), variant
@@ -61,7 +61,8 @@ def gen_params(rng, tier):
 
 
 def build(p):
-    S = lambda k: [(r[0], r[1]) for r in p[k]]  # noqa: E731
+    S = lambda k: [(r[0], r[1]) for r in p["sa" if (k == "sb" and p["desc"] == "same") else k]]  # noqa: E731
+    # ("same": both aggregators receive the same records, also after the case has been shrunk)
     ops = [("new", "a", p["spec"]), ("fills", "a", S("sa")), ("new", "b", p["spec2"]), ("fills", "b", S("sb"))]
     expect = []
     i0 = len(ops)
@@ -81,6 +82,14 @@ def build(p):
     return {"ops": ops, "expect": expect}
 
 
+def _drop_bins_name(d):
+    if isinstance(d, dict):
+        return {k: _drop_bins_name(v) for k, v in d.items() if k != "bins:name"}
+    if isinstance(d, list):
+        return [_drop_bins_name(v) for v in d]
+    return d
+
+
 @common.pycheck("c09_eq_iff_content")
 def _eq_content(py, replies, h1, h2, i, desc, with_tol=True, must_equal=False):
     da, db = py.state(h1), py.state(h2)
@@ -93,7 +102,11 @@ def _eq_content(py, replies, h1, h2, i, desc, with_tol=True, must_equal=False):
     if ab != ba:
         return "== is not symmetric: a==b is %r, b==a is %r (%s)" % (ab, ba, desc)
     if ab and not same:
-        return "a == b although the contents differ: %s (%s)" % (strict, desc)
+        # `bins:name` of a sparse container is not part of what == compares (Hg.Model.Spec `Kind.content`): two empty
+        # reloaded containers that differ in nothing else are equal
+        strict2 = execs.diff_doc(_drop_bins_name(da), _drop_bins_name(db), mode="strict")
+        if strict2 is not None:
+            return "a == b although the contents differ: %s (%s)" % (strict2, desc)
     if must_equal and not ab:
         return "two aggregators built from one tree and filled with the same records are unequal (%s)" % desc
     if with_tol:
